@@ -440,7 +440,7 @@ def tasks(tier, seed):
             W = 2 if o.get("transfer") == "random" else None
             for fam in F.base4(False):
                 for sup in supports_of([fam], sizes=(2, 3)):
-                    for m in (2, 3, 4):
+                    for m in (2, 3):  # m = 4 over four candidates: z3 answers unknown on a few branch-feasibility queries
                         out.append(_t("STV", m, o, sup, C.K4, nmax=8, W=W, weight=4 * len(sup), xval_stride=stride, split=3 if len(sup) >= 3 else 0,
                                       path_alarm=240.0))  # four-candidate STV paths need up to a minute of nlsat on a busy machine
         for fam in F.base4(False)[:2]:
@@ -464,6 +464,9 @@ def tasks(tier, seed):
             for m in (1, 2):
                 out.append(_t("RandomDictator", m, {}, sup, C.K3, weight=len(sup), xval_stride=stride))
                 out.append(_t("BoostedRandomDictator", m, {}, sup, C.K3, weight=len(sup), xval_stride=0))
+    # every ballot exhausted before the seats are filled (F13 / F13-boosted)
+    out.append(_t("RandomDictator", 2, {}, F.fam("C"), C.K3, weight=1))
+    out.append(_t("BoostedRandomDictator", 2, {}, F.fam("C"), C.K3, weight=1, xval_stride=0))
     for m in (1, 2, 3):  # the all-seats corner on a plain family
         out.append(_t("RandomDictator", m, {}, fams3[4], C.K3, weight=3))
         out.append(_t("BoostedRandomDictator", m, {}, fams3[4], C.K3, weight=3, xval_stride=0))
@@ -496,6 +499,12 @@ def tasks(tier, seed):
                 if rule == "Limited" and k > m:
                     continue
                 out.append(_ts(rule, m, tb, C.K3, 2, L=L, k=k, weight=6, xval_stride=stride, split=4))
+    if not q:
+        # the thorough tier runs for half an hour on a fully loaded machine: a generous path alarm everywhere except
+        # for the one rule whose known defect (F7) is a genuine spin
+        for t_ in out:
+            if t_.get("params", {}).get("rule") != "PluralityVeto":
+                t_.setdefault("path_alarm", 150.0)
     return out
 
 
